@@ -157,3 +157,4 @@ def run(ctx):
     # 8. planning reads the links it follows (next free, next part) through the writer's own overlay before the file: a record planned
     # before the previous one is applied must see what that one did to the chain
     shared.file_reads_shadowed(ctx, '8')
+    shared.tree_lock_decision(ctx, '9')
